@@ -97,6 +97,55 @@ ex4 = make_exhaustive(4)
 ex5 = make_exhaustive(5, minprod=16, ref='kuhn')
 
 
+TINY = [(nu, nv) for nu in range(1, 4) for nv in range(1, 4) if nu * nv <= 4]
+
+
+def _tiny_lists():
+    out = []
+    for nu, nv in TINY:
+        pairs = [(u, v) for u in range(nu) for v in range(nv)]
+        n = len(pairs)
+        # every ORDERED edge list with repetitions of length 0 .. nu*nv + 1
+        total = sum(n ** k for k in range(0, n + 2))
+        out.append((nu, nv, total))
+    return out
+
+
+def duplicates_exhaustive(ctx, idx, rng):
+    """Every ordered edge list WITH repetitions up to length nu*nv+1 for the shapes with nu*nv <= 4."""
+    import itertools
+    nu, nv, total = _tiny_lists()[idx]
+    pairs = [(u, v) for u in range(nu) for v in range(nv)]
+    n = 0
+    for k in range(0, len(pairs) + 2):
+        for edges in itertools.product(pairs, repeat=k):
+            edges = list(edges)
+            r = refs.max_matching_bruteforce(nu, nv, list(set(edges)))
+            ctx.cur_info = {'nu': nu, 'nv': nv, 'edges': edges}
+            check_graph(ctx, nu, nv, edges, r)
+            n += 1
+    ctx.case_bulk((f'{nu}x{nv}', 'ordered-lists-with-duplicates'), n, nontrivial=True)
+    ctx.case((f'{nu}x{nv}', 'duplicates-sample'), nontrivial=False, sample={'nu': nu, 'nv': nv, 'edges': edges})
+
+
+def duplicate_lengths_case(ctx, idx, rng):
+    """Edge lists with duplicates whose LENGTH hits structural numbers (nu*nv, nu*nv +- 1, nu, nv, nu+nv) while the edge set does not."""
+    nu, nv = int(rng.integers(1, 8)), int(rng.integers(1, 8))
+    pairs = [(u, v) for u in range(nu) for v in range(nv)]
+    ne = int(rng.integers(1, len(pairs) + 1))
+    base = [pairs[i] for i in rng.choice(len(pairs), size=ne, replace=False)]
+    target = int(rng.choice([nu * nv, nu * nv + 1, max(nu * nv - 1, 1), nu, nv, nu + nv, 2 * nu * nv]))
+    edges = list(base)
+    while len(edges) < target:
+        edges.append(base[int(rng.integers(0, len(base)))])
+    perm = rng.permutation(len(edges))
+    edges = [edges[i] for i in perm]
+    r = refs.max_matching_kuhn(nu, nv, list(set(edges)))
+    ctx.case(('dup-length', 'len==nu*nv' if len(edges) == nu * nv else 'len-other', 'complete' if len(set(edges)) == nu * nv else 'incomplete', f'match{min(r, 3)}'),
+             sample={'nu': nu, 'nv': nv, 'edges': edges})
+    check_graph(ctx, nu, nv, edges, r)
+
+
 def random_case(ctx, idx, rng):
     import pytenet.bipartite_graph as bg
     nu, nv, edges, kind = gen.rand_bipartite(rng, 60 if idx % 4 else 12)
@@ -153,7 +202,8 @@ def insitu_case(ctx, idx, rng):
 SPEC = {
     'id': 'C18',
     'rule': ('exhaustive: every edge set of every partition nu x nv <= 4x4 against a brute-force maximum matching (quick and thorough); '
-             'thorough adds every edge set of the partitions with nu*nv > 16 up to 5x5 against Kuhn\'s algorithm; random graphs up to 60x60 '
+             'thorough adds every edge set of the partitions with nu*nv > 16 up to 5x5 against Kuhn\'s algorithm; every ORDERED edge list with repetitions '
+             '(length <= nu*nv+1) for shapes with nu*nv <= 4 and random duplicate-padded lists whose length hits nu*nv, nu*nv+-1, nu, nv, nu+nv; random graphs up to 60x60 '
              '(empty, sparse, dense, complete, duplicate edges, long augmenting paths) with a logical-step budget 50(U+V+E)^2+1000 counted by '
              'sys.monitoring (function entries, loop back-edges, branches inside bipartite_graph.py); in situ: every per-site bipartite problem '
              'raised by from_opchains for built-in/molecular Hamiltonians and random chain lists. Non-trivial = at least one edge and more '
@@ -165,6 +215,9 @@ SPEC = {
                  exhaustive={'space': 'all edge sets of all partitions up to 4x4 (74306 graphs) vs brute force'}),
         Workload('exhaustive5', ex5, quick=0, thorough=ex5.count,
                  exhaustive={'space': 'all edge sets of partitions 4x5, 5x4, 5x5 (3.56e7 graphs) vs Kuhn reference'}),
+        Workload('duplicates-exhaustive', duplicates_exhaustive, quick=len(TINY), thorough=len(TINY),
+                 exhaustive={'space': 'all ordered edge lists with repetitions of length <= nu*nv+1 for every shape with nu*nv <= 4'}),
+        Workload('duplicate-lengths', duplicate_lengths_case, quick=1500, thorough=40000),
         Workload('random', random_case, quick=600, thorough=20000),
         Workload('insitu', insitu_case, quick=60, thorough=1500),
     ],
